@@ -596,9 +596,306 @@ Proof.
     destruct (exec_reset_list_shape (chunks w m) nx Hne) as [x Hx].
     assert (Hmsbv : Z.testbit (rsign s x) (w - 1) = Z.testbit (sd_init sd) (w - 1)).
     { rewrite <- Hx. rewrite exec_reset_list_bit by (auto; lia). rewrite chunks_cover by lia. rewrite Hmsb. reflexivity. }
-    rewrite Hx. rewrite rsign_norm in * by auto. rewrite testbit_norm in * by (auto; lia). rewrite Hsg in *. fold w in *.
-    replace (b <? w) with false by lia. replace (w - 1 <? w) with true in Hmsbv by lia. rewrite Hmsbv.
-    rewrite <- (norm_id s (sd_init sd)) at 2 by auto. rewrite testbit_norm by (auto; lia). rewrite Hsg. fold w.
-    replace (b <? w) with false by lia. reflexivity.
+    rewrite Hx.
+    assert (Hhi : forall y, Z.testbit (norm s y) b = Z.testbit (norm s y) (w - 1)).
+    { intros y. rewrite !testbit_norm by (auto; lia). rewrite Hsg. fold w.
+      replace (b <? w) with false by lia. replace (w - 1 <? w) with true by lia. reflexivity. }
+    rewrite rsign_norm in Hmsbv by auto. rewrite rsign_norm by auto.
+    rewrite Hhi. rewrite Hmsbv. rewrite <- (norm_id s (sd_init sd)) by auto. symmetry. apply Hhi.
 Qed.
 End ResetBits.
+
+(* ---------- the whole reset block ---------- *)
+Record tab_ok (tab : sigtab) : Prop := {
+  tk_wf : forall i, wf_shape (sd_shape (tab i)) = true;
+  tk_init : forall i, in_range (sd_shape (tab i)) (sd_init (tab i)) }.
+
+(* facts about the collector on a statement list (true of every list whose ESig shapes agree with tab) *)
+Record collector_ok (tab : sigtab) (ss : list stmt) : Prop := {
+  ck_width : forall i k, width (sd_shape (tab i)) <= k -> Z.testbit (stmts_mask ss i) k = false;
+  ck_keys : forall i, stmts_mask ss i <> 0 -> In i (lhs_keys ss) }.
+
+Lemma uniq_nodup : forall l seen, NoDup (uniq seen l) /\ forall x, In x (uniq seen l) -> ~ In x seen.
+Proof.
+  induction l as [|x l IH]; intros seen; simpl.
+  - split; [constructor|contradiction].
+  - destruct (existsb (Nat.eqb x) seen) eqn:E.
+    + apply IH.
+    + destruct (IH (x :: seen)) as [N S]. split.
+      * constructor; auto. intro H. apply S in H. apply H. simpl. auto.
+      * intros y [<-|Hy].
+        -- intro H. assert (existsb (Nat.eqb x) seen = true) by (apply existsb_exists; exists x; split; auto; apply Nat.eqb_refl). congruence.
+        -- apply S in Hy. intro. apply Hy. simpl. auto.
+Qed.
+
+Lemma lhs_keys_nodup ss : NoDup (lhs_keys ss).
+Proof. apply uniq_nodup. Qed.
+
+Section ResetBlock.
+Variables (tab : sigtab) (curr : env) (m : maskmap) (i : nat).
+Hypothesis Htab : tab_ok tab.
+Hypothesis Hm : forall k, width (sd_shape (tab i)) <= k -> Z.testbit (m i) k = false.
+
+Lemma reset_keys_bits : forall keys nx, NoDup keys ->
+  (sd_reset_less (tab i) = true \/ ~ In i keys -> exec_rtl_list curr (flat_map (sig_resets tab m) keys) nx i = nx i) /\
+  (sd_reset_less (tab i) = false -> In i keys -> forall b, 0 <= b ->
+     Z.testbit (update_mask (sd_shape (tab i)) (m i)) b = true ->
+     Z.testbit (exec_rtl_list curr (flat_map (sig_resets tab m) keys) nx i) b = Z.testbit (sd_init (tab i)) b).
+Proof.
+  induction keys as [|k keys IH]; intros nx Hnd.
+  - split; [reflexivity|contradiction].
+  - inversion Hnd as [|? ? Hnotin Hnd']; subst. cbn [flat_map]. rewrite exec_list_app.
+    destruct (IH (exec_rtl_list curr (sig_resets tab m k) nx) Hnd') as [IH1 IH2]. split.
+    + intros H. rewrite IH1 by (destruct H as [H|H]; [left; auto|right; intro; apply H; simpl; auto]).
+      destruct (Nat.eq_dec k i) as [->|Hne].
+      * destruct H as [H|H]; [|exfalso; apply H; simpl; auto]. unfold sig_resets. rewrite H. reflexivity.
+      * apply exec_sig_resets_other. auto.
+    + intros Hrl Hin b Hb Hu. destruct (Nat.eq_dec k i) as [->|Hne].
+      * rewrite IH1 by (right; auto). unfold sig_resets. rewrite Hrl.
+        apply exec_reset_list_um; auto; [apply (tk_wf _ Htab)|apply (tk_init _ Htab)].
+      * destruct Hin as [Hin|Hin]; [congruence|]. apply IH2; auto.
+Qed.
+End ResetBlock.
+
+(* the inserted statements only name bits that are already in the mask *)
+Lemma stmt_mask_reset_stmt i sd ch acc j :
+  stmt_mask (reset_stmt i sd ch) acc j =
+  if Nat.eqb j i then Z.lor (acc j) (chunk_mask (width (sd_shape sd)) ch) else acc j.
+Proof.
+  unfold reset_stmt, chunk_mask. destruct (snd ch); cbn [stmt_mask lhs_mask]; unfold mm_or; reflexivity.
+Qed.
+
+Lemma chunk_mask_sub w mk c : 0 <= w -> In c (chunks w mk) ->
+  (forall k, w <= k -> Z.testbit mk k = false) -> Z.lor mk (chunk_mask w c) = mk.
+Proof.
+  intros Hw Hin Hmk. apply Z.bits_inj'. intros b Hb. rewrite Z.lor_spec.
+  destruct (Z.testbit mk b) eqn:E; auto. cbn [orb].
+  pose proof (chunks_wf w mk c Hw Hin) as Hc.
+  destruct (Z.lt_ge_cases b w) as [Hlt|Hge].
+  - pose proof (chunks_cover w mk b ltac:(lia)) as C. rewrite E in C.
+    assert (Hn : in_chunk w b c = false).
+    { destruct (in_chunk w b c) eqn:E2; auto.
+      assert (existsb (in_chunk w b) (chunks w mk) = true) by (apply existsb_exists; eauto). congruence. }
+    unfold chunk_mask, in_chunk, wf_chunk in *. destruct c as [lo [hi|]]; cbn [fst snd] in *.
+    + rewrite !Z.land_spec. rewrite Z.shiftl_spec by lia.
+      destruct (Z.lt_ge_cases b lo) as [H1|H1].
+      * rewrite (Z.testbit_neg_r _ (b - lo)) by lia. reflexivity.
+      * assert (hi <= b) by lia.
+        replace (Z.shiftl 1 hi - Z.shiftl 1 lo) with (Z.shiftl (Z.ones (hi - lo)) lo).
+        2:{ rewrite !Z.shiftl_mul_pow2 by lia. rewrite Z.ones_equiv. replace hi with ((hi - lo) + lo) at 2 by lia.
+            rewrite Z.pow_add_r by lia. lia. }
+        rewrite (Z.shiftl_spec (Z.ones _)) by lia. rewrite Z.ones_spec_high by lia. rewrite andb_false_r. reflexivity.
+    + subst lo. lia.
+  - unfold chunk_mask. destruct (snd c); rewrite !Z.land_spec;
+      replace (Z.shiftl 1 w - 1) with (Z.ones w) by (unfold Z.ones; lia); rewrite Z.ones_spec_high by lia;
+      rewrite andb_false_r; reflexivity.
+Qed.
+
+Lemma reset_stmts_mask tab mk keys :
+  (forall i, 0 <= width (sd_shape (tab i))) ->
+  (forall i k, width (sd_shape (tab i)) <= k -> Z.testbit (mk i) k = false) ->
+  forall acc j, (forall j, acc j = mk j) ->
+  fold_left (fun acc s => stmt_mask s acc) (flat_map (sig_resets tab mk) keys) acc j = mk j.
+Proof.
+  intros Hw Hmk. induction keys as [|k keys IH]; intros acc j Hacc; cbn [flat_map fold_left]; auto.
+  rewrite fold_left_app. apply IH. clear IH. intros j'.
+  unfold sig_resets. destruct (sd_reset_less (tab k)); [apply Hacc|].
+  assert (G : forall chs acc, (forall c, In c chs -> In c (chunks (width (sd_shape (tab k))) (mk k))) ->
+              (forall j, acc j = mk j) ->
+              fold_left (fun acc s => stmt_mask s acc) (map (reset_stmt k (tab k)) chs) acc j' = mk j').
+  { induction chs as [|c chs IHc]; intros acc0 Hsub Ha; cbn [map fold_left]; auto.
+    apply IHc; [intros; apply Hsub; simpl; auto|]. intros j0. rewrite stmt_mask_reset_stmt.
+    destruct (Nat.eqb j0 k) eqn:E; auto. apply Nat.eqb_eq in E. subst j0. rewrite Ha.
+    apply chunk_mask_sub; auto. apply Hsub; simpl; auto. }
+  apply G; auto.
+Qed.
+
+Lemma stmts_mask_reset tab ss c j : tab_ok tab -> collector_ok tab ss ->
+  stmts_mask (ss ++ [ctl_switch c (reset_stmts tab ss)]) j = stmts_mask ss j.
+Proof.
+  intros Ht Hc. unfold stmts_mask at 1. rewrite fold_left_app. cbn [fold_left]. rewrite stmt_mask_ctl_switch.
+  fold (stmts_mask ss). unfold reset_stmts. rewrite reset_stmts_of_flat. apply reset_stmts_mask; auto.
+  - intros i. pose proof (tk_wf _ Ht i) as H. unfold wf_shape in H. destruct (sgn _); lia.
+  - apply (ck_width _ _ Hc).
+Qed.
+
+(* ResetInserter on one process (generalised to an already present inserted reset `rs`) *)
+Theorem reset_ctl tab ss c rst rs st : shape_of c = Sh 1 false -> tab_ok tab -> collector_ok tab ss ->
+  forall i, s_next (sync_ctl tab (ss ++ [ctl_switch c (reset_stmts tab ss)]) rst true rs st) i
+          = s_next (sync_ctl tab ss rst true (ctl_on (s_curr st) c || rs) st) i.
+Proof.
+  intros Hc Ht Hk i. unfold sync_ctl; cbn [s_next s_curr]. rewrite stmts_mask_reset by auto.
+  destruct (stmts_mask ss i =? 0) eqn:E; auto.
+  apply slot_update_agree. intros b Hb Hu.
+  set (rst_on := match rst with Some r => negb (Z.land 1 (s_curr st r) =? 0) | None => false end).
+  rewrite exec_list_app. unfold exec_rtl_list at 1. cbn [fold_left]. rewrite exec_ctl_switch by auto.
+  fold (exec_rtl_list (s_curr st) ss (s_next st)).
+  destruct (sd_reset_less (tab i)) eqn:Hrl.
+  - rewrite !andb_false_r. destruct (ctl_on (s_curr st) c); auto.
+    unfold reset_stmts. rewrite reset_stmts_of_flat. f_equal.
+    apply (reset_keys_bits tab (s_curr st) (stmts_mask ss) i Ht (ck_width _ _ Hk i)); [apply lhs_keys_nodup|auto].
+  - rewrite !andb_true_r. destruct rst_on; cbn [orb]; auto.
+    destruct (ctl_on (s_curr st) c); cbn [orb]; auto. destruct rs; auto.
+    unfold reset_stmts. rewrite reset_stmts_of_flat.
+    apply (reset_keys_bits tab (s_curr st) (stmts_mask ss) i Ht (ck_width _ _ Hk i)); auto.
+    + apply lhs_keys_nodup.
+    + apply (ck_keys _ _ Hk). intro H0. rewrite H0 in E. discriminate.
+Qed.
+
+Theorem reset_process tab ss c rst st : shape_of c = Sh 1 false -> tab_ok tab -> collector_ok tab ss ->
+  forall i, s_next (sync_process tab (ss ++ [ctl_switch c (reset_stmts tab ss)]) rst st) i
+          = s_next (sync_ctl tab ss rst true (ctl_on (s_curr st) c) st) i.
+Proof.
+  intros Hc Ht Hk i. rewrite <- sync_ctl_plain. rewrite reset_ctl by auto. rewrite orb_false_r. reflexivity.
+Qed.
+
+(* ================= stacks of inserters of one kind ================= *)
+Lemma sync_ctl_enable tab ss c rst en st : shape_of c = Sh 1 false ->
+  forall i, s_next (sync_ctl tab [ctl_switch c ss] rst en false st) i
+          = s_next (sync_ctl tab ss rst (ctl_on (s_curr st) c && en) false st) i.
+Proof.
+  intros Hc i. unfold sync_ctl; cbn [s_next s_curr]. rewrite stmts_mask_ctl_switch.
+  destruct (stmts_mask ss i =? 0) eqn:E; auto. f_equal.
+  destruct en; [|rewrite andb_false_r; reflexivity]. rewrite andb_true_r.
+  unfold exec_rtl_list at 1. cbn [fold_left]. rewrite exec_ctl_switch by auto.
+  destruct (ctl_on (s_curr st) c); reflexivity.
+Qed.
+
+Lemma enable_n_ctl tab rst st i : forall cs ss en, Forall (fun c => shape_of c = Sh 1 false) cs ->
+  s_next (sync_ctl tab (enable_n cs ss) rst en false st) i
+  = s_next (sync_ctl tab ss rst (forallb (ctl_on (s_curr st)) cs && en) false st) i.
+Proof.
+  induction cs as [|c cs IH]; intros ss en Hf; [reflexivity|].
+  inversion Hf; subst. unfold enable_n in *. cbn [fold_left forallb]. rewrite IH by auto.
+  rewrite sync_ctl_enable by auto. rewrite andb_assoc. reflexivity.
+Qed.
+
+Theorem enable_n_process tab cs ss rst st : Forall (fun c => shape_of c = Sh 1 false) cs ->
+  forall i, s_next (sync_process tab (enable_n cs ss) rst st) i
+          = s_next (sync_ctl tab ss rst (forallb (ctl_on (s_curr st)) cs) false st) i.
+Proof. intros Hf i. rewrite <- sync_ctl_plain. rewrite enable_n_ctl by auto. rewrite andb_true_r. reflexivity. Qed.
+
+Fixpoint collector_ok_n (tab : sigtab) (cs : list expr) (ss : list stmt) : Prop :=
+  match cs with
+  | [] => True
+  | c :: cs' => collector_ok tab ss /\ collector_ok_n tab cs' (ss ++ [ctl_switch c (reset_stmts tab ss)])
+  end.
+
+Lemma reset_n_ctl tab rst st i : tab_ok tab -> forall cs ss rs,
+  Forall (fun c => shape_of c = Sh 1 false) cs -> collector_ok_n tab cs ss ->
+  s_next (sync_ctl tab (reset_n tab cs ss) rst true rs st) i
+  = s_next (sync_ctl tab ss rst true (existsb (ctl_on (s_curr st)) cs || rs) st) i.
+Proof.
+  intros Ht. induction cs as [|c cs IH]; intros ss rs Hf Hk; [reflexivity|].
+  inversion Hf; subst. destruct Hk as [Hk1 Hk2]. unfold reset_n in *. cbn [fold_left existsb]. rewrite IH by auto.
+  rewrite reset_ctl by auto. rewrite orb_assoc. reflexivity.
+Qed.
+
+Theorem reset_n_process tab cs ss rst st : tab_ok tab ->
+  Forall (fun c => shape_of c = Sh 1 false) cs -> collector_ok_n tab cs ss ->
+  forall i, s_next (sync_process tab (reset_n tab cs ss) rst st) i
+          = s_next (sync_ctl tab ss rst true (existsb (ctl_on (s_curr st)) cs) st) i.
+Proof. intros Ht Hf Hk i. rewrite <- sync_ctl_plain. rewrite reset_n_ctl by auto. rewrite orb_false_r. reflexivity. Qed.
+
+(* the OR / AND of two one-bit controls *)
+Lemma land1 z : Z.land 1 z = Z.b2z (Z.testbit z 0).
+Proof. rewrite Z.land_comm. change 1 with (Z.ones 1). rewrite Z.land_ones by lia. symmetry. apply Z.bit0_mod. Qed.
+
+Lemma ctl_on_or curr a b : shape_of a = Sh 1 false -> shape_of b = Sh 1 false ->
+  shape_of (EOp2 OOr a b) = Sh 1 false /\
+  ctl_on curr (EOp2 OOr a b) = ctl_on curr a || ctl_on curr b.
+Proof.
+  intros Ha Hb. split; [cbn [shape_of op2_shape]; rewrite Ha, Hb; reflexivity|].
+  unfold ctl_on, ewidth. cbn [shape_of op2_shape eval_rtl rtl_op2]. rewrite Ha, Hb.
+  change (width (unify2 (Sh 1 false) (Sh 1 false))) with 1. change (width (Sh 1 false)) with 1.
+  unfold rsign, rmask. cbn [sgn width]. change (Z.shiftl 1 1 - 1) with 1. rewrite !land1.
+  rewrite Z.lor_spec. destruct (Z.testbit (eval_rtl curr a) 0), (Z.testbit (eval_rtl curr b) 0); reflexivity.
+Qed.
+
+Lemma ctl_on_and curr a b : shape_of a = Sh 1 false -> shape_of b = Sh 1 false ->
+  shape_of (EOp2 OAnd a b) = Sh 1 false /\
+  ctl_on curr (EOp2 OAnd a b) = ctl_on curr a && ctl_on curr b.
+Proof.
+  intros Ha Hb. split; [cbn [shape_of op2_shape]; rewrite Ha, Hb; reflexivity|].
+  unfold ctl_on, ewidth. cbn [shape_of op2_shape eval_rtl rtl_op2]. rewrite Ha, Hb.
+  change (width (unify2 (Sh 1 false) (Sh 1 false))) with 1. change (width (Sh 1 false)) with 1.
+  unfold rsign, rmask. cbn [sgn width]. change (Z.shiftl 1 1 - 1) with 1. rewrite !land1.
+  rewrite Z.land_spec. destruct (Z.testbit (eval_rtl curr a) 0), (Z.testbit (eval_rtl curr b) 0); reflexivity.
+Qed.
+
+(* ================= DomainRenamer ================= *)
+Lemma add_stmts_fresh d ss l : ss <> [] -> ~ In d (map fst l) -> add_stmts d ss l = l ++ [(d, ss)].
+Proof.
+  intros Hne. unfold add_stmts. destruct ss as [|s ss]; [congruence|]. clear Hne.
+  induction l as [|e l IH]; intros H; simpl; auto.
+  destruct (Nat.eqb (fst e) d) eqn:E.
+  - apply Nat.eqb_eq in E. exfalso. apply H. simpl. auto.
+  - f_equal. apply IH. intro. apply H. simpl. auto.
+Qed.
+
+Definition ren_entry (rho : list (nat * nat)) (e : nat * list stmt) : nat * list stmt := (rename_dom rho (fst e), snd e).
+
+(* no two domains of the fragment are merged: renaming just re-keys the statement dict *)
+Lemma rename_entries_map rho : forall st acc,
+  NoDup (map fst acc ++ map (fun e => rename_dom rho (fst e)) st) ->
+  (forall e, In e st -> snd e <> []) ->
+  fold_left (fun acc e => add_stmts (rename_dom rho (fst e)) (snd e) acc) st acc = acc ++ map (ren_entry rho) st.
+Proof.
+  induction st as [|e st IH]; intros acc Hnd Hne; cbn [fold_left map].
+  - rewrite app_nil_r. reflexivity.
+  - rewrite add_stmts_fresh.
+    + rewrite IH.
+      * rewrite <- app_assoc. reflexivity.
+      * rewrite map_app. cbn [map fst]. rewrite <- app_assoc. exact Hnd.
+      * intros; apply Hne; simpl; auto.
+    + apply Hne; simpl; auto.
+    + cbn [map] in Hnd. apply NoDup_remove_2 in Hnd. intro H. apply Hnd. apply in_or_app. auto.
+Qed.
+
+Theorem rename_entries_spec rho st :
+  NoDup (map (fun e => rename_dom rho (fst e)) st) -> (forall e, In e st -> snd e <> []) ->
+  rename_entries rho st = map (ren_entry rho) st.
+Proof. intros Hnd Hne. unfold rename_entries. rewrite rename_entries_map; auto. Qed.
+
+Lemma fold_left_map_ext {A B C} (f : A -> B -> A) (g : C -> B) (h : A -> C -> A) l :
+  (forall a x, In x l -> f a (g x) = h a x) -> forall a, fold_left f (map g l) a = fold_left h l a.
+Proof.
+  induction l as [|x l IH]; intros H a; simpl; auto.
+  rewrite H by (simpl; auto). apply IH. intros; apply H; simpl; auto.
+Qed.
+
+(* behaviour is unchanged when the processes are re-keyed to domains with the same clock/reset configuration *)
+Section Rename.
+Variables (D : design) (rho : list (nat * nat)) (doms' : domtab).
+Let D' := {| g_tab := g_tab D; g_doms := doms'; g_procs := map (ren_entry rho) (g_procs D); g_nsig := g_nsig D |}.
+Hypothesis Hcomb : forall p, In p (g_procs D) -> (rename_dom rho (fst p) = 0%nat <-> fst p = 0%nat).
+Hypothesis Hcfg : forall p, In p (g_procs D) -> fst p <> 0%nat -> doms' (rename_dom rho (fst p)) = g_doms D (fst p).
+
+Lemma ren_eqb0 p : In p (g_procs D) -> Nat.eqb (rename_dom rho (fst p)) 0 = Nat.eqb (fst p) 0.
+Proof.
+  intros Hin. destruct (Nat.eqb (fst p) 0) eqn:E.
+  - apply Nat.eqb_eq. apply Hcomb; auto. apply Nat.eqb_eq; auto.
+  - apply Nat.eqb_neq. intro H. apply Hcomb in H; auto. apply Nat.eqb_neq in E. auto.
+Qed.
+
+Lemma settle_rename : forall fuel cur, settle fuel D' cur = settle fuel D cur.
+Proof.
+  induction fuel as [|k IH]; intros cur; cbn [settle]; auto.
+  assert (E : eval_phase (g_tab D') (g_doms D') (fun _ => false) (g_procs D') {| s_curr := cur; s_next := cur |}
+            = eval_phase (g_tab D) (g_doms D) (fun _ => false) (g_procs D) {| s_curr := cur; s_next := cur |}).
+  { unfold eval_phase, D'. cbn [g_tab g_doms g_procs]. apply fold_left_map_ext. intros a x Hx.
+    unfold run_proc, ren_entry. cbn [fst snd]. rewrite ren_eqb0 by auto. reflexivity. }
+  rewrite E. unfold D' at 1 2 3. cbn [g_nsig]. destruct (differs _ _ _); auto.
+Qed.
+
+Theorem rename_step sp e cur : step_with sp D' e cur = step_with sp D e cur.
+Proof.
+  unfold step_with. unfold fuel_of. rewrite settle_rename. unfold D' at 1 2 3 4. cbn [g_nsig]. f_equal. f_equal. f_equal.
+  unfold D'. cbn [g_procs g_tab g_doms]. apply fold_left_map_ext. intros a x Hx.
+  unfold ren_entry. cbn [fst snd]. rewrite ren_eqb0 by auto.
+  destruct (Nat.eqb (fst x) 0) eqn:E; auto. rewrite Hcfg; auto. apply Nat.eqb_neq; auto.
+Qed.
+
+Theorem rename_run sp evs : forall cur, run_with (step_with sp) D' evs cur = run_with (step_with sp) D evs cur.
+Proof. induction evs as [|e evs IH]; intros cur; simpl; auto. rewrite rename_step, IH. reflexivity. Qed.
+End Rename.
